@@ -2,10 +2,11 @@
 # Copies the confirmed seeded defects from /tmp/seed/<ID>/<k> into /verif/seeded/<ID>-<k>/ and records, from a
 # fresh checker run on a scratch copy of /repo with the patch applied, which rules report it.
 set -u
-for d in /tmp/seed/C*/[123]; do
+BASE=${SEEDBASE:-/tmp/seed}; SUF=${SEEDSUFFIX:-}
+for d in $BASE/C*/[123]; do
   id=$(basename $(dirname $d)); k=$(basename $d)
   [ -f $d/patch.diff ] && [ -f $d/verify.json ] || continue
-  out=/verif/seeded/$id-$k; mkdir -p $out
+  out=/verif/seeded/$id-$k$SUF; mkdir -p $out
   cp $d/patch.diff $out/patch.diff
   cp $d/demo_test.go $out/demo_test.go
   [ -f $d/notes.md ] && cp $d/notes.md $out/notes.md
